@@ -7,6 +7,8 @@ import sys
 import time as _time
 
 VERIF_DIR = os.path.dirname(os.path.dirname(os.path.abspath(__file__)))
+# scratch output root (evidence, replays) for mutant / seeded-change runs; registered checks write under /verif
+OUT_DIR = os.environ.get('VERIF_OUT') or VERIF_DIR
 REPO = os.environ.get('VERIF_REPO', '/repo')
 
 if VERIF_DIR not in sys.path:
